@@ -1,14 +1,15 @@
 #!/bin/sh
 # usage: tools/try_mutant_wt.sh <patch.diff> <Cxx> [Cyy ...]
-# like try_mutant.sh but leaves /repo alone: the patch is applied in a scratch worktree of /repo and the
-# checks run with VERIF_REPO pointing at it (used while other work is going on in /repo or /verif).
+# Fully isolated trial of a change: the patch is applied in a scratch worktree of /repo (HEAD) and the quick checks
+# run from a scratch COPY of /verif (incl. its lake build output) with VERIF_REPO pointing at the worktree, so
+# neither /repo nor /verif (generated tables, evidence, replays) is touched and several trials can run in parallel.
 P="$(realpath "$1")"; shift
-W=/tmp/trywt-$$
+W=/tmp/trywt-$$; V=/tmp/tryvf-$$
 git -C /repo worktree add -q --detach "$W" HEAD || exit 2
 git -C "$W" apply "$P" || { echo "patch does not apply"; git -C /repo worktree remove --force "$W"; exit 2; }
+mkdir -p "$V" && rsync -a --exclude evidence --exclude replays --exclude .git --exclude '__pycache__' /verif/ "$V"/
 for c in "$@"; do
   echo "=== $c"
-  (cd /verif && VERIF_REPO="$W" ./check "$c" --tier quick 2>&1 | grep -E "VIOLATION|detail|KNOWN|tier=|HARNESS|Error" | head -12)
+  (cd "$V" && VERIF_REPO="$W" ./check "$c" --tier quick 2>&1 | grep -E "VIOLATION|detail|KNOWN|tier=|HARNESS|Error" | head -12)
 done
-git -C /repo worktree remove --force "$W"
-(cd /verif && /venv/bin/python harness/gen_tables.py /repo > /dev/null 2>&1)   # leave the generated tables as /repo says
+git -C /repo worktree remove --force "$W"; rm -rf "$V"
